@@ -329,9 +329,14 @@ def contradictory(facts):
     for f in facts:
         if f[0][0] == "cmp":
             nfs.add(fact_nf(f))
+    from .poly import canon
     for nf in nfs:
         if negate_cmp(nf) in nfs:
             return True
+        if nf[0] == "ge0" and ("ge0", -nf[1]) in nfs:
+            # p >= 0 and -p >= 0 mean p == 0
+            if canon("ne0", nf[1]) in nfs or canon("ne0", -nf[1]) in nfs:
+                return True
         k, p = nf
         if p.is_const():
             c = p.const_value()
